@@ -1,9 +1,9 @@
-// Command extract regenerates lean/PolyVerif/Gen/*.lean from the behaviour of
+// Package extractor regenerates lean/PolyVerif/Gen/*.lean from the behaviour of
 // the poly code it is compiled against (the current /repo working tree).
 // The extraction is behavioural: it calls exported functions (or reflect) on a
 // complete finite domain; it does not read identifiers or source text.
 // Usage: extract <outdir>
-package main
+package extractor
 
 import (
 	"fmt"
@@ -18,11 +18,11 @@ type genFile struct {
 
 var genFiles []genFile
 
-func registerGen(name string, body func() (string, error)) {
+func RegisterGen(name string, body func() (string, error)) {
 	genFiles = append(genFiles, genFile{name, body})
 }
 
-func main() {
+func Main() {
 	outdir := os.Args[1]
 	only := ""
 	if len(os.Args) > 2 {
